@@ -39,28 +39,30 @@ def confirm(patch, demo):
 
 
 def run(patch, pids):
-    st = sh("git -C /repo status --porcelain").stdout.strip()
-    if st:
-        print("/repo not clean:", st)
-        return 2
+    """Apply the patch in a scratch worktree (never in /repo) and run the checks against it via VERIF_REPO."""
+    wt = tempfile.mkdtemp(prefix="amshan-seedrun-")
+    os.rmdir(wt)
     res = {}
     try:
-        ap = sh(f"git -C /repo apply {patch}")
+        assert sh(f"git -C /repo worktree add -q --detach {wt} HEAD").returncode == 0
+        ap = sh(f"git -C {wt} apply {patch}")
         if ap.returncode:
-            print("patch does not apply to /repo:", ap.stderr[:300])
+            print("patch does not apply:", ap.stderr[:300])
             return 2
+        env = dict(os.environ, VERIF_REPO=wt)
         for pid in pids:
             evf = os.path.join(V, "evidence", f"{pid}.json")
             saved = open(evf).read() if os.path.exists(evf) else None
-            p = sh(f"cd {V} && ./check {pid} --tier quick", timeout=3600)
+            p = sh(f"cd {V} && ./check {pid} --tier quick", timeout=3600, env=env)
             if saved is not None:           # evidence of a seeded run is not evidence: put the clean-tree file back
                 open(evf, "w").write(saved)
             viol = [l for l in p.stdout.splitlines() if l.startswith("VIOLATION")]
             res[pid] = ("DETECTED" if p.returncode == 1 and viol else ("MACHINERY" if p.returncode == 2 else "missed"), p.returncode, len(viol))
-            what = [l for l in p.stderr.splitlines() if l.strip().startswith("what:")][:2]
+            what = [l[:400] for l in p.stderr.splitlines() if l.strip().startswith("what:")][:2]
             print(pid, res[pid], *what, sep="\n   ")
     finally:
-        sh("git -C /repo checkout -- .")
+        sh(f"git -C /repo worktree remove --force {wt}")
+        shutil.rmtree(wt, ignore_errors=True)
     return 0
 
 
